@@ -713,6 +713,41 @@ theorem event_fixed_roundtrip :
 theorem event_send_decode_encode : ∀ v, v < 256 → encode (decodeSend v) = [v % 64 + 64] := by
   decide +kernel
 
+/-- every event encodes to exactly one byte -/
+theorem event_encode_length (e : Event) : (encode e).length = 1 := by
+  cases e with
+  | recv o l b => cases o <;> cases l <;> cases b <;> rfl
+  | send r a b n w l => cases r <;> cases a <;> cases b <;> cases n <;> cases w <;> cases l <;> rfl
+  | listenMode => rfl
+  | restart => rfl
+
+/-- The event log never holds more than 64 entries, whatever the history of `addEvent` calls
+    (invariant by induction over the calls), -/
+theorem eventlog_bounded (log es : List Event) (h : log.length ≤ 64) : (runLog log es).length ≤ 64 := by
+  induction es generalizing log with
+  | nil => exact h
+  | cons e es ih =>
+    apply ih
+    simp only [addEvent, List.length_take]; omega
+
+/-- …so `getEvents()` is at most 64 bytes and the FC 12 reply (status, event count, message count,
+    events) always fits a 253-byte PDU, -/
+theorem eventlog_bytes_bounded (es : List Event) : (getEvents (runLog [] es)).length ≤ 64 := by
+  have hb := eventlog_bounded [] es (by simp)
+  have : ∀ l : List Event, (getEvents l).length = l.length := by
+    intro l
+    induction l with
+    | nil => rfl
+    | cons e l ih =>
+      have h1 : getEvents (e :: l) = encode e ++ getEvents l := rfl
+      rw [h1, List.length_append, event_encode_length, ih, List.length_cons]; omega
+  rw [this]; exact hb
+
+/-- …and the newest event comes first: after `addEvent e` the log's bytes start with `e`'s byte. -/
+theorem eventlog_newest_first (log : List Event) (e : Event) :
+    getEvents (addEvent log e) = encode e ++ getEvents (log.take 63) := by
+  simp [addEvent, getEvents, List.take_succ_cons]
+
 end Events
 
 /-- Non-vacuity of the hypotheses. -/
